@@ -7,10 +7,14 @@ From GodGen Require C10_Gen.
    (key,value) callbacks run after it in callback order, the pairs handed to the drain function *)
 Record obs := mkObs { ob_err : nat; ob_fired : list (nat * nat); ob_drained : list (nat * nat) }.
 
+(* a call of the wheel's API, or a driver gate operation (hold / release of a callback): the wheel
+   is not involved, nothing may fire *)
+Inductive xcall := XC (c : call) | XGate.
+
 Record wcase := mkcase {
   c_interval : Z;            (* nanoseconds *)
   c_slots : Z;
-  c_calls : list call;
+  c_calls : list xcall;
   c_new_ok : bool;           (* constructor returned a wheel *)
   c_obs : list obs
 }.
@@ -33,10 +37,11 @@ Fixpoint perm_b (l1 l2 : list (nat * nat)) : bool :=
 Definition nil_b {A} (l : list A) : bool := match l with [] => true | _ => false end.
 
 (* ---- model agreement ---- *)
-Fixpoint model_run (w : wheel) (cs : list call) (os : list obs) : bool :=
+Fixpoint model_run (w : wheel) (cs : list xcall) (os : list obs) : bool :=
   match cs, os with
   | [], [] => true
-  | c :: cs', o :: os' =>
+  | XGate :: cs', o :: os' => (ob_err o =? 0) && nil_b (ob_fired o) && nil_b (ob_drained o) && model_run w cs' os'
+  | XC c :: cs', o :: os' =>
       match api w c with
       | Ok (w', m) =>
           (ob_err o =? o_err m) && list_eqb pair_eqb (o_fired m) (ob_fired o) &&
@@ -66,10 +71,11 @@ Definition bad_args (c : call) : bool :=
 (* closed: Stop seen; drained: Drain seen.  Returns true as soon as the history leaves the scope of
    the property text (delay below one interval; an operation other than ticks/Stop after Drain;
    a second Stop). *)
-Fixpoint spec_run (I : positive) (sp : sst) (closed drained : bool) (cs : list call) (os : list obs) : bool :=
+Fixpoint spec_run (I : positive) (sp : sst) (closed drained : bool) (cs : list xcall) (os : list obs) : bool :=
   match cs, os with
   | [], [] => true
-  | c :: cs', o :: os' =>
+  | XGate :: cs', o :: os' => (ob_err o =? 0) && quiet o && spec_run I sp closed drained cs' os'
+  | XC c :: cs', o :: os' =>
       if bad_args c then
         ((ob_err o =? 2) || (closed && (ob_err o =? 1))) && quiet o && spec_run I sp closed drained cs' os'
       else if closed then
